@@ -69,6 +69,20 @@ func newSimWorld(sc *Scenario) *simWorld {
 					_ = k.KillRequestContext(ctx, id, rc.Consumer)
 				}
 			}
+			if sc.Rig.ReentrantPauseSiblings {
+				var others [][]byte
+				var consumers []sdk.AccAddress
+				k.IterateRequestContexts(ctx, func(oid tmbytes.HexBytes, oc st.RequestContext) bool {
+					if oc.ModuleName == mod && !bytes.Equal(oid, id) {
+						others = append(others, append([]byte{}, oid...))
+						consumers = append(consumers, oc.Consumer)
+					}
+					return false
+				})
+				for i := range others {
+					_ = k.PauseRequestContext(ctx, others[i], consumers[i])
+				}
+			}
 			if sc.Rig.ReentrantRestart {
 				if rc, ok := k.GetRequestContext(ctx, id); ok {
 					_ = k.StartRequestContext(ctx, id, rc.Consumer)
